@@ -45,9 +45,15 @@ fn count_all(b: &Board) -> [usize; 5] {
 }
 
 fn count_check(case: &Value, stats: &mut Stats) -> CheckResult {
-    let (b, r) = match case_board(case, stats)? {
-        Some(x) => x,
-        None => return Ok(()),
+    // the domain is "every position the validation gate accepts", so the gate alone decides here
+    let fen = case["fen"].as_str().unwrap_or("");
+    let r = ref_from_fen(fen).map_err(|e| Failure::new(format!("harness: bad case fen: {}", e)))?;
+    let b = match Board::try_from(raw_from_ref(&r)) {
+        Ok(b) => b,
+        Err(_) => {
+            stats.skip("gate_rejected");
+            return Ok(());
+        }
     };
     let c = count_all(&b);
     for (i, n) in c.iter().enumerate() {
@@ -78,8 +84,12 @@ fn maximise_driver(ctx: &RunCtx, stats: &mut Stats, rep: &mut Reporter) {
             if shard % 2 == 1 {
                 cur = crate::gen::positions::flip_colors(&cur);
             }
+            // Odd chains search over positions valid by the reference rules; even chains over everything the
+            // library's own validation gate accepts ("valid position" = accepted by validation), with no cap on
+            // the number of men other than the gate's.
+            let gate_only = shard % 4 == 2;
             let eval = |p: &RefPos| -> Option<usize> {
-                if !p.is_valid() || p.normalised() != *p {
+                if !gate_only && (!p.is_valid() || p.normalised() != *p) {
                     return None;
                 }
                 let b = Board::try_from(raw_from_ref(p)).ok()?;
@@ -120,7 +130,7 @@ fn maximise_driver(ctx: &RunCtx, stats: &mut Stats, rep: &mut Reporter) {
                         if cand.b[s as usize].is_none() {
                             let c = if next(5) == 0 { mover.inv() } else { mover };
                             let np = [Pc::Q, Pc::Q, Pc::Q, Pc::R, Pc::B, Pc::N, Pc::P][next(7)];
-                            if cand.count(c) < 16 && !(np == Pc::P && (rank_of(s) == 0 || rank_of(s) == 7)) {
+                            if (gate_only || cand.count(c) < 16) && !(np == Pc::P && (rank_of(s) == 0 || rank_of(s) == 7)) {
                                 cand.b[s as usize] = Some((c, np));
                             }
                         }
@@ -322,7 +332,7 @@ pub fn property() -> Property {
     Property {
         id: "C19",
         rule: "(a) maximise: simulated annealing with restarts (16 deterministic chains seeded from VERIF_SEED, relocate/retype/add/remove/swap \
-               men) over valid positions, maximising semilegal::gen_all_into(Vec) (safe sink, so an overflow is counted, not executed); \
+               men) over valid positions (12 chains: valid by the reference rules; 4 chains: whatever the library's own gate accepts), maximising semilegal::gen_all_into(Vec) (safe sink, so an overflow is counted, not executed); \
                oracle: count <= 256 for all five generators. (b) exercise: valid positions (12 sources + heavy sources: many queens, dense, \
                mutated maximal positions) run through every generator and query (fixed-capacity lists, attack queries for 64 squares, \
                make/unmake of every semilegal move, SAN of every legal move); in the `checked` configuration (debug assertions + \
